@@ -252,6 +252,26 @@ Proof.
   rewrite stride_sum_cons, IH; [reflexivity|lia].
 Qed.
 
+(* first coordinate fastest = row-major order of the map array, whose shape is the reversed pixel_shape *)
+Lemma horner_app : forall a b acc i n, length a = length b ->
+  horner acc (a ++ [i]) (b ++ [n]) = horner acc a b * n + i.
+Proof.
+  induction a as [|x a IH]; intros [|y b] acc i n L; cbn [length] in L; try lia; cbn [app horner].
+  - reflexivity.
+  - apply IH. lia.
+Qed.
+
+Lemma horner_rev : forall cs ps acc, length cs = length ps ->
+  horner acc (rev cs) (rev ps) = acc * prod ps + ravel cs ps.
+Proof.
+  induction cs as [|c cs IH]; intros [|n ps] acc L; cbn [length] in L; try lia; cbn [rev ravel].
+  - cbn [horner]. rewrite prod_nil. ring.
+  - rewrite horner_app by (rewrite !rev_length; lia). rewrite IH by lia. rewrite prod_cons0. ring.
+Qed.
+
+Lemma ravel_row_major : forall cs ps, length cs = length ps -> ravel cs ps = c_order (rev cs) (rev ps).
+Proof. intros. unfold c_order. rewrite horner_rev by assumption. ring. Qed.
+
 (* ---------- the loop over unbounded integers is the closed form ---------- *)
 Lemma ideal_fold_spec : forall ias dims stride ind valid,
   ideal_fold ias dims stride ind valid = (ind + stride * ravel ias dims, valid && in_map ias dims).
@@ -466,6 +486,21 @@ Proof.
   - rewrite rounded_ints, H, ravel_stride_sum by lia. reflexivity.
   - apply ints_nil. eapply length_nonnil; eauto.
 Qed.
+
+(* row-major order of the map: the index addresses element (c_{d-1}, ..., c_0) of an array of
+   shape (n_{d-1}, ..., n_0) = self.shape in C order *)
+Lemma p2i_row_major_l : forall x64 ps cs, all_pos ps -> fits x64 (prod ps) -> ps <> [] ->
+  length cs = length ps -> in_map cs ps = true ->
+  p2i x64 ps (fin (ints cs)) = Index (width x64 (prod ps)) (c_order (rev cs) (rev ps)).
+Proof.
+  intros x64 ps cs P F Hp L H.
+  rewrite p2i_spec_l; try assumption.
+  - rewrite rounded_ints, H, ravel_row_major by assumption. reflexivity.
+  - apply ints_nil. eapply length_nonnil; eauto.
+Qed.
+
+Lemma p2i_zero_coordinates_l : forall x64 ps, fits x64 (prod ps) -> p2i x64 ps [] = Raised TypeError.
+Proof. intros. unfold p2i. rewrite p2i_gen_core by assumption. reflexivity. Qed.
 
 (* p2i_range *)
 Lemma p2i_range_l : forall x64 ps cs, all_pos ps -> fits x64 (prod ps) -> ps <> [] ->
